@@ -42,6 +42,10 @@ def enumerate_cases(tier, seed):
     # exact-arithmetic instances: every atom carries the isotope label 12C (mass exactly 12.0), so every cumulative mass
     # is an integer-valued float under ANY order of summation; only here are targets placed exactly at / one ulp around a
     # boundary (elsewhere the last bits of a cumulative mass depend on the summation order, which the property does not fix)
+    # the same boundary question asked of the object gen_mirror() returns (prefix and suffix of different mass change places)
+    for u in units[:2]:
+        yield ("boundary", {"unit": u, "prefix": "CCCCCCCCCC", "suffix": "O", "mirror": True})
+        yield ("boundary", {"unit": u, "prefix": "N", "suffix": "C(C)CC(c1ccccc1)c1ccccc1", "mirror": True})
     for u in EXACT_UNITS:
         for p in ("[12CH3]", "[12CH3][12CH2]"):
             for s in ("[12CH3]", None):
@@ -58,6 +62,13 @@ def _sym(u):
 def _text(p, u, s, t):
     lt, rt = ("[$]", "[$]") if _sym(u) == "$" else ("[>]", "[<]")
     return f"{p}{{{lt}{u}{rt}}}|gauss({t!r}, 0)|{s or ''}"
+
+
+def _make(txt, mirror):
+    import gbigsmiles
+
+    m = gbigsmiles.Molecule(txt)
+    return m.gen_mirror() if mirror else m
 
 
 def _units_of(mg, utext):
@@ -84,7 +95,7 @@ def eval_case(kind, data):
     w0 = None
     for k in range(1, 5):
         rng = ScriptedGenerator([])
-        mg = gbigsmiles.Molecule(_text(p, u, None, (k - 0.5) * m)).generate(rng=rng)
+        mg = gbigsmiles.Molecule(_text(p, u, None, (k - 0.5) * m)).generate(rng=rng)  # calibration always on the molecule as written
         if _units_of(mg, u) != k:
             viol(res, f"C07|calibration|{fam}", f"{_text(p, u, None, (k - 0.5) * m)} produced {_units_of(mg, u)} units, expected {k}", None)
             return res
@@ -106,7 +117,7 @@ def eval_case(kind, data):
         exp = next(n for n in range(1, 6) if n > len(a) or a[n - 1] > t)
         txt = _text(p, u, s, t)
         rng = ScriptedGenerator([])
-        st, mg = run_limited(lambda: gbigsmiles.Molecule(txt).generate(rng=rng), (), 30)
+        st, mg = run_limited(lambda: _make(txt, bool(data.get("mirror"))).generate(rng=rng), (), 30)
         if st == "ok":
             got = _units_of(mg, u)
         elif st in ("timeout", "memory"):
@@ -119,7 +130,7 @@ def eval_case(kind, data):
         outcomes.add(f"{fam}:{got}")
         if got != exp:
             rel = "at" if t in a else "below" if any(t == math.nextafter(x, -math.inf) for x in a) else "above" if any(t == math.nextafter(x, math.inf) for x in a) else "off"
-            viol(res, f"C07|boundary-{rel}|{'sym' if _sym(u) == '$' else 'dir'}|suffix={'yes' if s else 'no'}", f"{txt}: {got} units, expected {exp} (cumulative masses {a})", {"text": txt})
+            viol(res, f"C07|boundary-{rel}|{'sym' if _sym(u) == '$' else 'dir'}|suffix={'yes' if s else 'no'}{'|mirror' if data.get('mirror') else ''}", f"{txt}{' [the object returned by gen_mirror()]' if data.get('mirror') else ''}: {got} units, expected {exp} (cumulative masses {a})", {"text": txt})
     res["states"] = len(targets)
     res["transitions"] = n_exec
     res["traces"] = n_exec
